@@ -1,7 +1,7 @@
 """C16 - VCF output states exactly the genotypes of the tree sequence (structural clauses)."""
 from __future__ import annotations
 
-from . import lib_py, lib_vcf, lib_variant, lib_module, lib_newick
+from . import scopes, lib_py, lib_vcf, lib_variant, lib_module, lib_newick
 
 LEVEL = "other"
 EXPLANATION = ("Mask-normalisation discipline in VcfWriter, option forwarding from write_vcf/as_vcf/CLI under the same names, "
@@ -11,10 +11,11 @@ EXPLANATION = ("Mask-normalisation discipline in VcfWriter, option forwarding fr
 def run(ctx):
     py = ctx.python()
     lib_py.use_after_normalise(ctx, py, "vcf", "VcfWriter.__init__")
-    lib_py.kw_forward(ctx, py, mods=("vcf", "trees", "cli"))
-    lib_py.unused_params(ctx, py, mods=("vcf",))
+    ps = scopes.py_scope("C16")
+    lib_py.kw_forward(ctx, py, mods=("vcf", "trees", "cli"), only=ps)
+    lib_py.unused_params(ctx, py, mods=("vcf", "trees"), only=ps)
     lib_vcf.writer_structure(ctx, py)
-    lib_newick.none_defaults(ctx, py, mods=("vcf",))
+    lib_newick.none_defaults(ctx, py, mods=("vcf", "trees"), only=ps)
     P = ctx.program()
     lib_vcf.mark_missing(ctx, P)
     lib_variant.variant_decode(ctx, P)
